@@ -69,10 +69,10 @@ class Adjoint(object):
         self.nc = 2 * self.s
         self.D = S.cfg['DIM']
         self.P = S.v('spatial_points_')
-        self.X = [self.P] + [S.v(f) for f in KNOT_FIELDS[cls]]
+        self.X = [self.P] + [S.v(f) for f in KNOT_FIELDS.get(cls, [])]
         self.gC, self.gT = gC, gT
         self.HJ = HermiteJac(self.s)
-        self.top = {3: 6, 4: 7}[self.s]
+        self.top = {2: 3, 3: 6, 4: 7}[self.s]
 
     def g(self, i, m, d):
         return self.gC.at(E.const(i) * self.nc + m, d)
@@ -597,11 +597,37 @@ for _c in KNOT_FIELDS:
 # conditions (C02).  Hence lam = 0 solves (E1) and the total derivative is the direct part of (E2..E4):
 #      dE/dh_i = dE/dT_i|_C + sum_m dE/dc_im * dc_im/dh_i,   dE/dP_j = pull-backs of the two adjacent segments,   etc.
 # with dE/dc the partial derivatives of the spec energy integral.  Each of these is a per-segment identity.
+class SpecColumns(object):
+    """a matrix-like view of per-coordinate specification arrays: at(row, d)"""
+
+    def __init__(self, accs, rows):
+        self.accs, self.R = accs, rows
+
+    def at(self, r, d):
+        return self.accs[d](E.const(r))
+
+
 class EnergyAdjoint(Adjoint):
     def __init__(self, S, cls):
         Adjoint.__init__(self, S, cls, None, None)
         self.C = S.v('coeffs_')
-        self.T = lambda i: S.v('time_segments_').at(i)
+        if cls == 'CubicSplineND':
+            # the cubic class stores knot second derivatives; the Hermite parametrisation needs the knot slopes, which are named
+            # here: VK[k] = slope of piece k at its left end (k < n), of the last piece at its right end (k = n)
+            n = S.num_segments_
+            accs = {}
+            for d in dims(S):
+                acc, full = S.spec_array('VK_%d' % d)
+                facts = [S.forall(0, n, lambda k, d=d, acc=acc: [acc(k).eq(self.C.at(k * 4 + 1, d))]),
+                         acc(n).eq(der(self.C, 4, n - 1, 1, tp_field(S, n - 1, 'h'), d))]
+                S.definitions.append((full, facts))
+                for j, f in enumerate(facts):
+                    (S.ensures if S.mode == 'call' else S.requires)(f, 'def_knot_slopes_%d_%d' % (d, j))
+                accs[d] = acc
+            self.X = [self.P, SpecColumns(accs, n + 1)]
+            self.T = lambda i: tp_field(S, i, 'h')
+        else:
+            self.T = lambda i: S.v('time_segments_').at(i)
 
     def seg_total_d(self, i, d):
         return seg_energy(self.C, self.nc, i, self.s, self.T(i), d)
@@ -619,8 +645,8 @@ def make_energy_grad_contracts(cls):
     s = ORDER_OF[cls]
     b = s - 1
     nc = 2 * s
-    kf = KNOT_FIELDS[cls]
     BCN = ['v', 'a', 'j'][:b]
+    cubic = cls == 'CubicSplineND'
 
     def built(S, A):
         """a built spline: cached time powers, knot derivatives, and coefficients in first-principles Hermite form (C01/C02)"""
@@ -628,7 +654,37 @@ def make_energy_grad_contracts(cls):
         S.requires(sizes_ok(S, cls), 'sizes')
         for p in all_tp_ok(S, cls):
             S.requires(p, 'time_powers')
-        S.requires(conj([x.R.eq(n + 1) for x in A.X[1:]]) & A.C.R.eq(nc * n), 'shapes')
+        S.requires(conj([E.const(x.R).eq(n + 1) for x in A.X[1:]]) & A.C.R.eq(nc * n), 'shapes')
+        if cubic:
+            # what update() publishes for the cubic class (C01): interpolation and continuity of the slope; the Hermite form over the
+            # named knot slopes is derived from it (lemma below) and then available for every segment
+            hfun = lambda i: tp_field(S, i, 'h')
+            for d in dims(S):
+                S.requires(S.forall(0, n, lambda i, d=d: [A.C.at(i * nc, d).eq(A.P.at(i, d)), der(A.C, nc, i, 0, hfun(i), d).eq(A.P.at(i + 1, d))]), 'interpolates_both_ends_%d' % d)
+                S.requires(S.forall(1, n, lambda m, d=d: [der(A.C, nc, m, 1, 0, d).eq(der(A.C, nc, m - 1, 1, hfun(m - 1), d))]), 'continuous_slope_%d' % d)
+            S.terms(S.sk(0) + 1, n - 1, n)
+            if S.mode == 'verify':
+                def derive(G):
+                    i = S.sk(0)
+                    inr = (i >= 0) & (i < n)
+                    V = A.X[1]
+                    hyps = [implies(inr, x) for x in tp_ok(S, i, cls)]
+                    concls = []
+                    for d in dims(S):
+                        hyps += [implies(inr, A.C.at(i * nc, d).eq(A.P.at(i, d))), implies(inr, der(A.C, nc, i, 0, hfun(i), d).eq(A.P.at(i + 1, d))),
+                                 implies(inr, V.at(i, d).eq(A.C.at(i * nc + 1, d))),
+                                 implies(inr & (i + 1 < n), V.at(i + 1, d).eq(A.C.at((i + 1) * nc + 1, d)) & der(A.C, nc, i + 1, 1, 0, d).eq(der(A.C, nc, i, 1, hfun(i), d))),
+                                 implies(inr & (i + 1).eq(n), V.at(i + 1, d).eq(der(A.C, nc, i, 1, hfun(i), d)))]
+                        concls += [implies(inr, x) for x in herm(S, A, i, d)]
+                    G.abstract_lemma('hermite_form_from_interpolation_and_slopes', hyps, concls)
+                    for d in dims(S):
+                        q = S.forall(0, n, lambda k, d=d: herm(S, A, k, d))
+                        G.assume_fact(q, 'generalisation of the lemma over its arbitrary segment index')
+                        # the fact is over state this (const) function never assigns: it stays valid, and is instantiated at loop terms too
+                        if not any(lab == 'derived_hermite_form_%d' % d for lab, _ in G.gen.stable_quants):
+                            G.gen.stable_quants.append(('derived_hermite_form_%d' % d, q))
+                S.ghost('entry', derive)
+            return
         for d in dims(S):
             S.requires(S.forall(0, n, lambda i, d=d: herm(S, A, i, d)), 'hermite_coefficients_%d' % d)
         # the published trajectory is (knot times, coefficients) of this spline (C01), for code that reads it instead of coeffs_
@@ -735,7 +791,7 @@ def make_energy_grad_contracts(cls):
         register(c)
 
 
-for _c in KNOT_FIELDS:
+for _c in ORDER_OF:
     make_energy_grad_contracts(_c)
 
 
